@@ -46,7 +46,9 @@ def run(ctx, progs):
                  ("INTO1", "IntoIter = pop_front/pop_back/len of the owned buffer"), ("RANGE1", "bound translation"),
                  ("ITERSET1", "the iterator types implement exactly the reviewed iterator methods (no second implementation of the iteration order)")):
         ctx.rule(r, t)
+    ctx.rule("ITERAGG1", "every Iter/IterMut is built from (first, second) of one view or (right, left) of one iterator")
     for cfg, prog in progs.items():
+        iteragg1(ctx, prog, cfg)
         for a, b in PAIRS:
             shapes.twin(ctx, "TWIN", prog, a, b, cfg, what="the shared and the mutable form of one algorithm")
         esi1(ctx, prog, cfg)
@@ -263,3 +265,58 @@ def iterset1(ctx, prog, cfg, rule="ITERSET1", types=ITER_TYPES):
                   "next/next_back (skipped elements, order, exhaustion and ownership must all agree) that has not been reviewed"
                   % (adt, sorted(extra)), "implements exactly %s" % sorted(fns), cfg)
     ctx.floor(rule, "iterator trait impls", n, 3 * len(types), cfg)
+
+
+def iteragg1(ctx, prog, cfg, rule="ITERAGG1"):
+    """Every `Iter { right, left }` / `IterMut { right, left }` built anywhere in the crate takes its two halves, in order,
+    from one source: (first, second) of one two-slice view call, (right, left) of one iterator value, or two empty
+    slices. An iterator assembled from the same half twice, or from the halves swapped, shows a different sequence (or
+    count) than the one it stands for — in Debug output as much as in iteration."""
+    n = 0
+    for f in prog.fns.values():
+        if not f.has_mir:
+            continue
+        for b, i, st, is_term in f.positions(False):
+            if is_term or st["k"] != "assign" or st["rv"]["k"] != "aggregate":
+                continue
+            adt = st["rv"].get("adt", "")
+            if not (adt.endswith("::Iter") or adt.endswith("::IterMut")):
+                continue
+            n += 1
+            e = f.deep_simplify(f.rvalue_expr(st["rv"], b, i))
+            d = dict(e[3]) if isinstance(e, tuple) and e and e[0] == "agg" else {}
+            r, l = mir.strip_casts(d.get("right")), mir.strip_casts(d.get("left"))
+
+            def through(x):
+                for _ in range(4):
+                    if isinstance(x, tuple) and x and x[0] == "ref" and isinstance(x[1], tuple) and x[1][0] == "local" and len(x[1]) > 2:
+                        x = mir.strip_casts(x[1][2])
+                    elif isinstance(x, tuple) and x and x[0] == "call" and len(x) > 2 and len(x[2]) == 1 and str(x[1]).split("::")[-1] in ("deref", "deref_mut", "as_ref", "as_mut"):
+                        x = mir.strip_casts(x[2][0])
+                    else:
+                        break
+                return x
+
+            r, l = through(r), through(l)
+
+            def is_empty(x):
+                return isinstance(x, tuple) and x and ((x[0] == "unsize" and str(x[2]) == "0") or x[0] == "const")
+
+            ok, by = False, ""
+            if is_empty(r) and is_empty(l):
+                ok, by = True, "two empty slices"
+            elif isinstance(r, tuple) and isinstance(l, tuple) and r[:1] == ("field",) and l[:1] == ("field",) and r[1] == l[1] and (r[2], l[2]) == ("0", "1") \
+                    and isinstance(r[1], tuple) and r[1][:1] in (("call",), ("phi",)):
+                ok, by = True, "(first, second) of one `%s`" % (r[1][1] if r[1][0] == "call" else "joined pair")
+            elif isinstance(r, tuple) and isinstance(l, tuple) and r[:1] == ("load",) and l[:1] == ("load",) and r[1] == l[1] and r[3][:1] == l[3][:1] == ("entry",) \
+                    and (tuple(r[2]), tuple(l[2])) == (("right",), ("left",)):
+                ok, by = True, "(right, left) of one iterator"
+            elif isinstance(r, tuple) and isinstance(l, tuple) and r[:1] == ("field",) and l[:1] == ("field",) and r[1] == l[1] and (r[2], l[2]) == ("right", "left"):
+                ok, by = True, "(right, left) of one iterator value"
+            elif isinstance(r, tuple) and isinstance(l, tuple) and r[:1] == ("param",) and l[:1] == ("param",) and r != l:
+                ok, by = True, "two slice parameters (the caller is judged where it builds them)"
+            ctx.check(ok, rule, f.short, "%s built from (first, second) of one source" % adt.split("::")[-1], short_loc(f, b, i),
+                      "`%s` builds an `%s` whose halves are `%s` and `%s`: not the first and the second piece of one view / one "
+                      "iterator, in that order — the sequence (or just its length, for zero-sized elements) it shows is not the one it "
+                      "stands for" % (f.short, adt.split("::")[-1], mir.fmt(r, f)[:60], mir.fmt(l, f)[:60]), by, cfg)
+    ctx.floor(rule, "Iter/IterMut constructions", n, 7, cfg)
